@@ -71,7 +71,7 @@ unsigned mon_g_loads, mon_g_stores, mon_g_cas; _Bool mon_g_cas_ok; unsigned mon_
 uint64_t mon_g_cas_clock, mon_fence_clock, mon_last_entry_read_clock, mon_own_store_clock; int mon_fence_order; unsigned n_fence;
 _Bool seen_epoch_set[E], seen_active_set[E], seen_active[E]; unsigned seen_epoch[E];
 _Bool mon_cas_all_examined; unsigned mon_own_stores; int mon_own_store_order; unsigned mon_own_store_val, mon_own_store_global;
-unsigned mon_other_stores;
+unsigned mon_other_stores; _Bool mon_own_stored_any, mon_own_store_after_cas, mon_g_cas_any;
 
 static _Bool examined_ok(unsigned i, unsigned old) {
   return seen_epoch_set[i] && (seen_epoch[i] != old || (seen_active_set[i] && !seen_active[i]));
@@ -84,13 +84,13 @@ static void mon_load(void* a, uint64_t v, int o) {
 static void mon_store(void* a, uint64_t v, int o) {
   if (a == (void*)&global_epoch) mon_g_stores++;
   for (unsigned i = 0; i < E; i++) if (a == (void*)&entries[i].local_epoch) {
-    if (&entries[i] == g_td.control_block) { mon_own_stores++; mon_own_store_order = o; mon_own_store_val = (unsigned)v; mon_own_store_global = global_epoch; mon_own_store_clock = xv_clock; }
+    if (&entries[i] == g_td.control_block) { mon_own_stores++; mon_own_stored_any = 1; mon_own_store_after_cas = 1; mon_own_store_order = o; mon_own_store_val = (unsigned)v; mon_own_store_global = global_epoch; mon_own_store_clock = xv_clock; }
     else mon_other_stores++;
   }
 }
 static void mon_cas(void* a, uint64_t e, uint64_t d, _Bool ok, int o) {
   if (a == (void*)&global_epoch) {
-    mon_g_cas++; mon_g_cas_ok = ok; mon_g_cas_exp = (unsigned)e; mon_g_cas_des = (unsigned)d; mon_g_cas_order = o; mon_g_cas_clock = xv_clock;
+    mon_g_cas++; mon_g_cas_any = 1; mon_own_store_after_cas = 0; mon_g_cas_ok = ok; mon_g_cas_exp = (unsigned)e; mon_g_cas_des = (unsigned)d; mon_g_cas_order = o; mon_g_cas_clock = xv_clock;
     unsigned old = ((unsigned)e + NEU - 1) % NEU;
     mon_cas_all_examined = 1;
     for (unsigned i = 0; i < E; i++) if (i < n_entries && !examined_ok(i, old)) mon_cas_all_examined = 0;
@@ -126,9 +126,9 @@ static struct tcb* tbl_acquire_entry(void) {
   return &entries[k];
 }
 #define TBL_acquire_entry(l) tbl_acquire_entry()
-static void tbl_release_entry(struct tcb* cb) { n_release++; released_cb = cb; release_clock = xv_clock++; if (cb) cb->state = ST_FREE; }
+static void tbl_release_entry(struct tcb* cb) { n_release++; released_cb = cb; release_clock = ++xv_clock; if (cb) cb->state = ST_FREE; }
 #define TBL_release_entry(l, cb) tbl_release_entry(cb)
-static void tbl_abandon(struct node* obj) { n_abandon++; abandoned_obj = obj; abandon_clock = xv_clock++; }
+static void tbl_abandon(struct node* obj) { n_abandon++; abandoned_obj = obj; abandon_clock = ++xv_clock; }
 #define TBL_abandon_retired_nodes(l, obj) tbl_abandon(obj)
 static struct node* tbl_adopt(void) { n_adopt_call++; struct node* r = abandoned_head; abandoned_head = 0; return r; }
 #define TBL_adopt_abandoned_retired_nodes(l) tbl_adopt()
@@ -138,7 +138,7 @@ static struct node* orphan_new(unsigned target, struct node** lists) {
   return &orphan_obj;
 }
 #define ORPHAN_new(t, lists) orphan_new((t), (lists))
-static void stub_delete_objects(struct node** list) { n_delete++; del_arg = list; delete_clock = xv_clock++; *list = 0; }
+static void stub_delete_objects(struct node** list) { n_delete++; del_arg = list; delete_clock = ++xv_clock; *list = 0; }
 #define XV_DELETE_OBJECTS(l) stub_delete_objects(&(l))
 
 /* thread_data callees: real text or contract stub, selected per run */
@@ -155,7 +155,7 @@ static void stub_quiescent(struct thread_data* self) {
 }
 struct node* adopt_new_head[NE]; _Bool adopt_changed[NE];
 static void stub_adopt(struct thread_data* self) {
-  n_adopt++; adopt_clock = xv_clock++;
+  n_adopt++; adopt_clock = ++xv_clock;
   /* contract of adopt_orphans (run 'adopt'): nodes are only added, in front of the lists */
   for (unsigned i = 0; i < NE; i++) { adopt_changed[i] = nondet_bool(); if (adopt_changed[i]) self->retire_lists[i] = &orphan_obj; adopt_new_head[i] = self->retire_lists[i]; }
 }
@@ -198,11 +198,22 @@ void xv_env(void) {
 #endif
 
 /* ---------------- loop cut: ensure_has_control_block's validate loop ---------------- */
+#ifdef XV_INT
+#define XV_INV_EHCB_G 1
+#else
+#define XV_INV_EHCB_G (global_epoch == in_global)
+#endif
 #define XV_INV_EHCB (self->control_block == acquired_cb && acquired_cb != 0 && n_acquire_entry == 1 && epoch < number_epochs && mon_g_stores == 0 && mon_other_stores == 0 \
-                     && self->region_entries == in_entries && global_epoch < number_epochs)
+                     && self->region_entries == in_entries && global_epoch < number_epochs && XV_INV_EHCB_G)
+#ifdef XV_INT
+#define XV_HAVOC_EHCB_G global_epoch = nondet_uint()
+#else
+#define XV_HAVOC_EHCB_G ((void)0)
+#endif
 #define XV_HAVOC_EHCB epoch = nondet_uint(); self->control_block->local_epoch = nondet_uint() /* local_epoch */; mon_own_stores = nondet_uint(); \
                       mon_g_cas = nondet_uint(); mon_g_cas_ok = nondet_bool(); mon_g_cas_exp = nondet_uint(); mon_g_cas_des = nondet_uint(); \
-                      mon_own_store_clock = nondet_u64(); mon_g_cas_clock = nondet_u64(); xv_clock = nondet_u64(); global_epoch = nondet_uint()
+                      mon_own_stored_any = nondet_bool(); mon_own_store_after_cas = nondet_bool(); mon_g_cas_any = nondet_bool(); \
+                      mon_own_store_clock = nondet_u64(); mon_g_cas_clock = nondet_u64(); xv_clock = nondet_u64(); XV_HAVOC_EHCB_G
 
 unsigned in_entries, in_local, in_global, in_op; mptr in_self, in_src; _Bool in_same, in_has_cb;
 unsigned in_e_epoch[E]; int in_e_state[E]; unsigned in_n, in_own;
@@ -232,7 +243,7 @@ static int member(struct node* head, struct node* x) {
 }
 static void reset_ghost(void) {
   n_enter = n_leave = n_ensure = n_quiescent = n_delete = n_adopt = n_acquire_entry = n_release = n_abandon = n_orphan_new = n_adopt_call = n_retire = 0;
-  mon_src_loads = 0; mon_g_loads = mon_g_stores = mon_g_cas = 0; mon_own_stores = mon_other_stores = 0; n_fence = 0; mon_cas_all_examined = 0; mon_g_cas_ok = 0;
+  mon_src_loads = 0; mon_g_loads = mon_g_stores = mon_g_cas = 0; mon_own_stores = mon_other_stores = 0; n_fence = 0; mon_cas_all_examined = 0; mon_g_cas_ok = 0; mon_own_stored_any = mon_own_store_after_cas = mon_g_cas_any = 0;
   for (unsigned i = 0; i < E; i++) { seen_epoch_set[i] = 0; seen_active_set[i] = 0; }
   del_arg = 0; released_cb = 0; abandoned_obj = 0; acquired_cb = 0; retired_node = 0; xv_clock = 1;
   mon_last_entry_read_clock = 0; mon_fence_clock = 0; mon_g_cas_clock = 0; mon_own_store_clock = 0; adopt_clock = 0; delete_clock = 0;
@@ -448,7 +459,7 @@ static _Bool blocked_by(unsigned old) {
   for (unsigned i = 0; i < E; i++) if (i < n_entries && entries[i].state == ST_ACTIVE && entries[i].local_epoch == old) return 1;
   return 0;
 }
-static _Bool near(unsigned local, unsigned global) { return global == local || global == (local + 1) % number_epochs; }
+static _Bool near(unsigned local, unsigned global) { return local < number_epochs && global < number_epochs && (global == local || global == (local + 1) % number_epochs); }
 
 void h_epochs(void) { XV_OBL("qsbr.epochs.at_least_three", number_epochs >= 3 && NE == XV_NUMBER_EPOCHS); }
 
@@ -597,8 +608,8 @@ void h_ensure(void) {
   } else {
     XV_OBL("qsbr.adopt.reinit", n_acquire_entry == 1 && g_td.control_block == acquired_cb && acquired_cb->state == ST_ACTIVE);
     /* the local epoch is a global epoch value validated by the successful CAS (global unchanged by it), and not rewritten afterwards */
-    XV_OBL("qsbr.adopt.reinit", mon_g_cas >= 1 && mon_g_cas_ok && mon_g_cas_exp == mon_g_cas_des && acquired_cb->local_epoch == mon_g_cas_exp
-                                 && mon_own_stores >= 1 && mon_own_store_clock < mon_g_cas_clock && acquired_cb->local_epoch < number_epochs);
+    XV_OBL("qsbr.adopt.reinit", mon_g_cas_any && mon_g_cas_ok && mon_g_cas_exp == mon_g_cas_des && acquired_cb->local_epoch == mon_g_cas_exp
+                                 && mon_own_stored_any && !mon_own_store_after_cas && acquired_cb->local_epoch < number_epochs);
 #ifndef XV_INT
     XV_OBL("qsbr.adopt.reinit", acquired_cb->local_epoch == global_epoch && global_epoch == in_global);
 #endif
